@@ -238,19 +238,19 @@ Proof.
     specialize (F 44 H0). discriminate.
 Qed.
 Lemma filter_nonempty_all (ts : list (list Z)) : Forall (fun t => t <> []) ts ->
-  filter (fun p => negb (len p =? 0)) ts = ts.
+  filter nonempty_piece ts = ts.
 Proof.
   intros H. induction H as [|t ts Ht _ IH]; [reflexivity|].
-  cbn [filter]. destruct t as [|c r]; [congruence|]. rewrite len_cons.
+  cbn [filter]. unfold nonempty_piece at 1. destruct t as [|c r]; [congruence|]. rewrite len_cons.
   pose proof (len_nonneg r). destruct (Z.eqb_spec (1 + len r) 0); [lia|]. cbn [negb]. rewrite IH. reflexivity.
 Qed.
 
 Definition valid_int (t : list Z) (v : Z) : Prop := text_value t = Some v /\ int64 v.
-Theorem parse_split_ints_exact : forall tss vss,
+Theorem parse_split_ints_exact : forall fixed tss vss,
   Forall2 (Forall2 valid_int) tss vss -> Forall (fun ts => ts <> []) tss ->
-  parse_split_ints 44 (map (intercalate [44]) tss) = Some vss.
+  parse_split_ints_gen fixed 44 (map (intercalate [44]) tss) = Some vss.
 Proof.
-  intros tss vss H Hne. unfold parse_split_ints.
+  intros fixed tss vss H Hne. unfold parse_split_ints_gen.
   set (all := concat tss).
   assert (Hall : Forall2 valid_int all (concat vss)).
   { subst all. clear Hne. induction H as [|ts vs tss vss Hr _ IH]; [constructor|].
@@ -266,21 +266,32 @@ Proof.
   assert (Ecat : concat (map (join_keep_last 44) tss) = join_keep_last 44 all).
   { subst all. unfold join_keep_last. rewrite concat_map, <- concat_concat', map_map. reflexivity. }
   rewrite Ecat, removelast_join.
-  assert (Ecount : map (count_eq 44) (map (join_keep_last 44) tss) = map len vss).
-  { rewrite map_map. clear - H Hsep. subst all. revert Hsep.
-    induction H as [|ts vs tss vss Hr _ IH]; intros Hsep; [reflexivity|].
+  assert (Ecount : map (count_eq 44) (map (join_keep_last 44) tss) = map len tss).
+  { rewrite map_map. clear - Hsep. subst all. revert Hsep.
+    induction tss as [|ts tss IH]; intros Hsep; [reflexivity|].
     cbn [concat] in Hsep. apply Forall_app in Hsep. destruct Hsep as [S1 S2].
-    cbn [map]. rewrite (IH S2). f_equal. rewrite count_join by exact S1.
-    clear - Hr. induction Hr as [|? ? ? ? _ _ IH]; [reflexivity|]. rewrite !len_cons, IH. reflexivity. }
+    cbn [map]. rewrite (IH S2). f_equal. apply count_join. exact S1. }
   rewrite Ecount.
+  assert (Elen : map len tss = map len vss).
+  { clear - H. induction H as [|ts vs tss vss Hr _ IH]; [reflexivity|]. cbn [map]. rewrite IH. f_equal.
+    clear - Hr. induction Hr as [|? ? ? ? _ _ IH]; [reflexivity|]. rewrite !len_cons, IH. reflexivity. }
   destruct all as [|t0 all'] eqn:Eall.
   - (* no numbers at all: every row is empty — excluded, so there are no rows *)
     assert (Ev : concat vss = []) by (inversion Hall; reflexivity).
-    cbn. f_equal. rewrite <- Ev. apply split_rows_concat.
+    assert (Et : tss = []).
+    { destruct tss as [|ts tss']; [reflexivity|]. exfalso. inversion Hne as [|? ? Hts _]; subst.
+      destruct ts; [congruence|]. subst all. discriminate. }
+    subst tss. inversion H; subst. destruct fixed; reflexivity.
   - rewrite <- Eall in *. rewrite split_on_intercalate by (try exact Hsep; rewrite Eall; discriminate).
-    rewrite filter_nonempty_all by exact Hnonempty.
+    fold nonempty_piece. rewrite filter_nonempty_all by exact Hnonempty.
     rewrite (str_to_int_exact all (concat vss) Hall).
-    rewrite Eall at 1. rewrite split_rows_concat. reflexivity.
+    assert (Eitems : (if fixed then map (fun ps => len (filter nonempty_piece ps)) (split_rows (map len tss) all)
+                      else map len tss) = map len vss).
+    { destruct fixed; [|exact Elen]. subst all. rewrite split_rows_concat. rewrite <- Elen.
+      apply map_ext_in. intros ts Hin. f_equal. apply filter_nonempty_all.
+      clear - Hnonempty Hin. apply Forall_forall. intros t Ht. rewrite Forall_forall in Hnonempty. apply Hnonempty.
+      apply in_concat. exists ts. split; assumption. }
+    rewrite Eitems. rewrite Eall at 1. rewrite split_rows_concat. reflexivity.
 Qed.
 
 (* ---------- T3a for the two formatters ---------- *)
